@@ -215,7 +215,12 @@ def drive(v, prop, tier, tag):
         sets.append(("generated-deep", dfile, nd, 10**6))
     if mode == "fault":
         sets.append(("random-wide", *random_behaviours(tag, sync, 10 if q else 60, 12, "wide"), 40))
-        sets.append(("random-size", *random_behaviours(tag, sync, 6 if q else 40, 8, "size"), 40))
+        rs = random_behaviours(tag, sync, 6 if q else 40, 8, "size")
+        sets.append(("random-size", *rs, 40))
+        # the way a full device usually fails a write: half of the bytes are written, the retry of the rest fails
+        # (a partial record is left in the file also for entries below the write buffer)
+        sets.append(("generated-short", gfile, ng, 10**6))
+        sets.append(("random-size-short", *rs, 40))
     else:
         sets.append(("random-wide", *random_behaviours(tag, sync, 40 if q else 400, 25, "wide"), 400))
         sets.append(("random-size", *random_behaviours(tag, sync, 12 if q else 100, 12, "size"), 400))
@@ -223,7 +228,8 @@ def drive(v, prop, tier, tag):
     for label, bfile, n, maxpts in sets:
         pre = os.path.join(work, label)
         f, sums, ab = run_shards("fsdrive", [mode, bfile, pre, "--seed", str(seed()), "--max-points", str(maxpts)] +
-                                 (["--no-aftermath"] if prop == "C14" else []), pre, min(NCPU, max(1, n)))
+                                 (["--no-aftermath"] if prop == "C14" else []) + (["--short-writes"] if label.endswith("-short") else []),
+                                 pre, min(NCPU, max(1, n)))
         files += f
         aborts += ab
         summary[label] = {k: sum(x.get(k, 0) for x in sums) for k in ("runs", "calls", "probes", "lines")}
@@ -242,9 +248,19 @@ def under_faults(v, prop, tier, tag, keep=lambda b: True, share=2):
     if tier == "quick":
         kept = [x for n, x in enumerate(kept) if (n + seed()) % share == 0]
     open(gfile, "w").write("\n".join([lines[0]] + kept) + "\n")
-    pre = os.path.join(OUT, "work", tag + "-uf", "uf")
-    files, sums, aborts = run_shards("fsdrive", ["fault", gfile, pre, "--seed", str(seed()), "--max-points", "1000000"],
-                                     pre, min(NCPU, max(1, len(kept))))
+    files, sums, aborts = [], [], []
+    plans = [("uf", gfile, [], len(kept)), ("uf-short", gfile, ["--short-writes"], len(kept))]
+    if prop == "C14":
+        # entries around and above the write buffer: a failed second write leaves the beginning of a record in the file
+        rs, nrs = random_behaviours(tag + "-uf", "none", 6 if tier == "quick" else 40, 8, "size")
+        plans += [("uf-size", rs, [], nrs), ("uf-size-short", rs, ["--short-writes"], nrs)]
+    for name, bf, flags, n in plans:
+        pre = os.path.join(OUT, "work", tag + "-uf", name)
+        f1, s1, a1 = run_shards("fsdrive", ["fault", bf, pre, "--seed", str(seed()), "--max-points", "1000000" if bf == gfile else "40"] + flags,
+                                pre, min(NCPU, max(1, n)))
+        files += f1
+        sums += s1
+        aborts += a1
     if aborts:
         v.cov.setdefault("process_deaths_in_code_under_test", []).extend(aborts[:5])
     validate(v, prop + "f", files, tag + "-uf", report_as=prop)
@@ -331,6 +347,9 @@ def validate(v, prop, files, tag, report_as=None):
             line = int(m.group(1)) if m else 0
             m = re.search(r'\bwhy = "([^"]*)"', st)
             why = m.group(1) if m else r.violated
+            m2 = re.search(r'\bwhy2 = "([^"]+)"', st)
+            if m2 and any(x.startswith("C12_") for x in P["trace"]):
+                why = m2.group(1)      # (the second, independent verdict of the event is the one this judge looks at)
             hdr, evs = find_run(f, line)
             run_id = evs[0].get("run", "?") if evs else "?"
             kf = classify_known(rprop, why, evs)
@@ -429,7 +448,8 @@ def check(prop, tier):
         files, summary, gfile = drive(v, prop, tier, tag)
         lap("+ driver runs")
         # the files are rewritten by validate() only when a known finding is dropped from them
-        mech_files = list(files)
+        # (short writes are not steps of BitcaskFault.tla's one-call-fails-entirely model: property level only)
+        mech_files = [x for x in files if "-short." not in os.path.basename(x)]
         if PROPS[prop]["mode"] == "fault" and tier == "quick":
             # the fault traces are large (every call of every behaviour failed twice): a seeded third of the shards
             mech_files = [f for n, f in enumerate(mech_files) if (n + seed()) % 3 == 0]
